@@ -30,6 +30,7 @@ import (
 	"github.com/nuts-foundation/go-did/did"
 	"github.com/nuts-foundation/nuts-node/auth"
 	"github.com/nuts-foundation/nuts-node/auth/client/iam"
+	"github.com/nuts-foundation/nuts-node/auth/oauth"
 	cryptoNuts "github.com/nuts-foundation/nuts-node/crypto"
 	"github.com/nuts-foundation/nuts-node/policy"
 	"github.com/nuts-foundation/nuts-node/storage"
@@ -65,6 +66,11 @@ type c05Case struct {
 	// Hist, when set, makes the case a SEQUENTIAL replay history instead of a schedule: request i presents the same
 	// value Hist[i] seconds (non-decreasing, harness clock) after the first one. Roles and Schedule are unused then.
 	Hist []int `json:"hist,omitempty"`
+	// Targets[i] is the tenant (subject of this node) whose endpoint request i is sent to: "" or "A" = the tenant the
+	// value was issued for / addressed to, "B" = another subject of the same node.
+	Targets []string `json:"targets,omitempty"`
+	// Aud is the variant of how the presented value is addressed (s2s presentations: proof.domain / aud claim shape).
+	Aud string `json:"aud,omitempty"`
 	// Faults is the fault plan of the session store's back-end (go-cache itself cannot fail, Redis/memcached can).
 	Faults []c05Fault `json:"faults,omitempty"`
 }
@@ -288,6 +294,8 @@ func (r *c05Reporter) Fatalf(format string, args ...any) {
 func (r *c05Reporter) Helper() {}
 
 type c05Fixture struct {
+	targets  []string
+	aud      string
 	w        Wrapper
 	st       *c05Store
 	rep      *c05Reporter
@@ -310,11 +318,19 @@ var c05HolderDID = did.MustParseDID("did:web:example.com:iam:holder")
 const c05VerifierSubject = "verifier"
 const c05HolderSubject = "holder"
 
+// tenant says at which tenant's endpoint request i is presented ("A" = home, "B" = the other subject).
+func (fx *c05Fixture) tenant(i int) string {
+	if i >= 0 && i < len(fx.targets) && fx.targets[i] == "B" {
+		return "B"
+	}
+	return "A"
+}
+
 // now is the harness clock: the wall clock plus the time that elapsed in a sequential replay history.
 func (fx *c05Fixture) now() time.Time { return time.Now().Add(fx.st.elapsed()) }
 
-func c05NewFixture(s *sched.S) *c05Fixture {
-	fx := &c05Fixture{rep: &c05Reporter{}}
+func c05NewFixture(s *sched.S, c c05Case) *c05Fixture {
+	fx := &c05Fixture{rep: &c05Reporter{}, targets: c.Targets, aud: c.Aud}
 	fx.ctrl = gomock.NewController(fx.rep)
 	fx.st = &c05Store{inner: go_cache.NewGoCache(gocacheclient.New(15*time.Minute, 0 /* no janitor goroutine */)), s: s}
 	db := storage.NewVerifSessionDatabase(fx.st)
@@ -339,8 +355,10 @@ func c05NewFixture(s *sched.S) *c05Fixture {
 	mockVCR.EXPECT().Issuer().Return(fx.vcIssuer).AnyTimes()
 	mockVCR.EXPECT().Verifier().Return(fx.verifier).AnyTimes()
 	mockVCR.EXPECT().Wallet().Return(fx.wallet).AnyTimes()
-	fx.subjects.EXPECT().ListDIDs(gomock.Any(), c05HolderSubject).Return([]did.DID{c05HolderDID}, nil).AnyTimes()
-	fx.subjects.EXPECT().ListDIDs(gomock.Any(), c05VerifierSubject).Return([]did.DID{c05VerifierDID}, nil).AnyTimes()
+	// three subjects (tenants) on this node, two DIDs each
+	fx.subjects.EXPECT().ListDIDs(gomock.Any(), c05HolderSubject).Return([]did.DID{c05HolderDID, did.MustParseDID("did:web:example.com:iam:holder-2")}, nil).AnyTimes()
+	fx.subjects.EXPECT().ListDIDs(gomock.Any(), c05VerifierSubject).Return([]did.DID{c05VerifierDID, did.MustParseDID("did:web:example.com:iam:verifier-2")}, nil).AnyTimes()
+	fx.subjects.EXPECT().ListDIDs(gomock.Any(), c05OtherSubject).Return([]did.DID{did.MustParseDID("did:web:example.com:iam:verifier2"), did.MustParseDID("did:web:example.com:iam:verifier2-2")}, nil).AnyTimes()
 	fx.subjects.EXPECT().Exists(gomock.Any(), gomock.Any()).Return(true, nil).AnyTimes()
 
 	fx.w = Wrapper{
@@ -379,6 +397,12 @@ type c05Kind struct {
 	// window returns how long after a first acceptance a replay of the value must still be refused: the period during
 	// which the value is otherwise valid. 0 = for ever (the value is burned, or the fixture itself enforces the validity).
 	window func(claims string) time.Duration
+	// auds lists the addressing variants besides "" (see c05Case.Aud)
+	auds []string
+	// tenants: the kind's endpoint exists once per subject, so the value can be presented at another tenant's endpoint;
+	// verifierSide picks the home tenant (c05TenantSubject)
+	tenants      bool
+	verifierSide bool
 }
 
 var c05Kinds = map[string]*c05Kind{}
@@ -412,6 +436,7 @@ func c05Err(err error) string {
 func init() {
 	c05Register(&c05Kind{
 		name:    "code",
+		tenants: true, verifierSide: true,
 		defects: []string{"wrong_client", "wrong_verifier", "missing_client", "missing_verifier"},
 		setup: func(x *h.Ctx, fx *c05Fixture, _ string) (string, func(string, int) c05Outcome) {
 			const code = "the-authorization-code"
@@ -446,7 +471,7 @@ func init() {
 				x.Fatalf("fixture PKCE pair does not validate")
 			}
 			x.NoErr(fx.w.oauthCodeStore().Put(code, session), "put code")
-			request := func(role string, _ int) c05Outcome {
+			request := func(role string, i int) c05Outcome {
 				c, cid, ver := code, clientID, pkceVerifier
 				body := HandleTokenRequestFormdataRequestBody{Code: &c, ClientId: &cid, CodeVerifier: &ver}
 				switch role {
@@ -465,7 +490,9 @@ func init() {
 					panic(c05MockFailure{"unknown role " + role})
 				}
 				ctx := context.WithValue(context.Background(), httpRequestContextKey{}, &http.Request{Header: http.Header{}})
-				resp, err := fx.w.handleAccessTokenRequest(ctx, body)
+				// the public token endpoint of the addressed tenant, grant type authorization_code
+				body.GrantType = oauth.AuthorizationCodeGrantType
+				resp, err := fx.w.HandleTokenRequest(ctx, HandleTokenRequestRequestObject{SubjectID: c05TenantSubject(true, fx.tenant(i)), Body: &body})
 				if err != nil {
 					return c05Outcome{OK: false, Detail: c05Err(err)}
 				}
@@ -488,6 +515,78 @@ func init() {
 
 // ---------------------------------------------------------------------------------------------------------------------
 // run + oracle
+
+// c05Acceptable caches, per (kind, claims, aud), whether a FIRST presentation of the value at the other tenant's
+// endpoint is honoured there, i.e. whether a cross-tenant replay is refused only by the one-time bookkeeping.
+var c05Acceptable = map[string]bool{}
+
+func c05AcceptableAtOtherTenant(x *h.Ctx, c c05Case, k *c05Kind) bool {
+	key := c.Kind + "|" + c.Claims + "|" + c.Aud
+	if v, ok := c05Acceptable[key]; ok {
+		return v
+	}
+	pc := c05Case{Kind: c.Kind, Claims: c.Claims, Aud: c.Aud, Targets: []string{"B"}, Hist: []int{0}}
+	fx := c05NewFixture(sched.New(1, sched.Options{}), pc)
+	_, request := k.setup(x, fx, pc.Claims)
+	o := request("ok", 0)
+	if o.OK && o.Post != nil && o.Post() != "" {
+		o.OK = false
+	}
+	c05Acceptable[key] = o.OK
+	return o.OK
+}
+
+// c05TenantClasses validates the tenant / addressing part of the case and records the classes. n = number of requests.
+func c05TenantClasses(x *h.Ctx, c c05Case, k *c05Kind, n int) {
+	if len(c.Targets) != 0 && len(c.Targets) != n {
+		x.Fatalf("targets must name a tenant per request: %v for %d requests", c.Targets, n)
+	}
+	for _, tg := range c.Targets {
+		if tg != "" && tg != "A" && tg != "B" {
+			x.Fatalf("unknown tenant %q", tg)
+		}
+	}
+	okAud := c.Aud == ""
+	for _, a := range k.auds {
+		okAud = okAud || a == c.Aud
+	}
+	if !okAud {
+		x.Fatalf("kind %s has no addressing variant %q", c.Kind, c.Aud)
+	}
+	if c.Aud != "" {
+		x.Classf("addressing:%s:%s", c.Kind, c.Aud)
+	}
+	a, b := false, false
+	for i := 0; i < n; i++ {
+		tg := "A"
+		if i < len(c.Targets) && c.Targets[i] == "B" {
+			tg = "B"
+		}
+		a, b = a || tg == "A", b || tg == "B"
+	}
+	switch {
+	case b && !k.tenants:
+		x.Fatalf("kind %s has no per-tenant endpoint", c.Kind)
+	case a && b:
+		x.Class("cross-tenant-replay:" + c.Kind)
+		if c05AcceptableAtOtherTenant(x, c, k) {
+			x.Class("cross-tenant-replay:" + c.Kind + ":otherwise-acceptable-at-the-other-tenant")
+		} else {
+			x.Class("cross-tenant-replay:" + c.Kind + ":refused-at-the-other-tenant-anyway")
+		}
+	case b:
+		x.Class("other-tenant-only:" + c.Kind)
+	default:
+		x.Class("same-tenant")
+	}
+}
+
+func c05Target(c c05Case, i int) string {
+	if i < len(c.Targets) && c.Targets[i] == "B" {
+		return "B"
+	}
+	return "A"
+}
 
 func c05CheckFaults(x *h.Ctx, faults []c05Fault) {
 	for _, f := range faults {
@@ -559,7 +658,7 @@ func c05Run(x *h.Ctx, c c05Case) {
 	}
 	c05CheckFaults(x, c.Faults)
 	s := sched.New(n, sched.Options{})
-	fx := c05NewFixture(s)
+	fx := c05NewFixture(s, c)
 	secretKey, request := k.setup(x, fx, c.Claims)
 	fx.st.faults = c.Faults // the fixture's own calls above and below never fail: only calls of scheduled requests do
 	out := make([]c05Outcome, n)
@@ -588,6 +687,7 @@ func c05Run(x *h.Ctx, c c05Case) {
 	// --- classification ---
 	x.Class("kind:" + c.Kind)
 	x.Classf("kind:%s/n=%d", c.Kind, n)
+	c05TenantClasses(x, c, k, n)
 	defective := false
 	for _, r := range c.Roles {
 		if r != "ok" {
@@ -652,7 +752,10 @@ func c05Run(x *h.Ctx, c c05Case) {
 	describe := func() string {
 		var b strings.Builder
 		for i, o := range out {
-			fmt.Fprintf(&b, "request %d (%s): ok=%v %s\n", i, c.Roles[i], o.OK, o.Detail)
+			fmt.Fprintf(&b, "request %d (%s, at tenant %s): ok=%v %s\n", i, c.Roles[i], c05Target(c, i), o.OK, o.Detail)
+		}
+		if c.Aud != "" {
+			fmt.Fprintf(&b, "value addressed as %q\n", c.Aud)
 		}
 		b.WriteString("store operations in executed order:\n")
 		for i, st := range tr.Steps {
@@ -662,7 +765,15 @@ func c05Run(x *h.Ctx, c c05Case) {
 		return b.String()
 	}
 	if succ > 1 {
-		c05Violate(x, "double-spend:"+c.Kind+faultSig, "%d of %d requests presenting the same %s succeeded\n%s", succ, n, c.Kind, describe())
+		tenantSig := ""
+		for i := range out {
+			for j := range out {
+				if out[i].OK && out[j].OK && c05Target(c, i) != c05Target(c, j) {
+					tenantSig = ":cross-tenant"
+				}
+			}
+		}
+		c05Violate(x, "double-spend:"+c.Kind+tenantSig+faultSig, "%d of %d requests presenting the same %s succeeded\n%s", succ, n, c.Kind, describe())
 	}
 	// dead after a failed attempt: a defective request that had returned its error response before a correct request
 	// performed its first store operation must have killed the code.
@@ -694,7 +805,7 @@ func c05Run(x *h.Ctx, c c05Case) {
 		}
 	}
 	// sanity of the fixture: a purely sequential run of correct requests must honour the first one
-	if sw == 0 && !defective && succ == 0 && len(fx.st.fired) == 0 {
+	if sw == 0 && !defective && succ == 0 && len(fx.st.fired) == 0 && c.Aud == "" && len(c.Targets) == 0 {
 		x.Fatalf("no request succeeded in a sequential run: fixture problem\n%s", describe())
 	}
 }
@@ -748,7 +859,7 @@ func c05RunHistory(x *h.Ctx, c c05Case, k *c05Kind) {
 	}
 	c05CheckFaults(x, c.Faults)
 	s := sched.New(1, sched.Options{}) // never run: requests are issued from this goroutine, which is no actor
-	fx := c05NewFixture(s)
+	fx := c05NewFixture(s, c)
 	_, request := k.setup(x, fx, c.Claims)
 	fx.st.faults = c.Faults
 	out := make([]c05Outcome, n)
@@ -774,6 +885,7 @@ func c05RunHistory(x *h.Ctx, c c05Case, k *c05Kind) {
 	x.Class("kind:" + c.Kind)
 	x.Classf("claims:%s:%s", c.Kind, c.Claims)
 	x.Classf("history-length=%d", n)
+	c05TenantClasses(x, c, k, n)
 	faultSig, faultText := c05FaultClasses(x, c, fx.st)
 	firstOK := -1
 	succ := 0
@@ -807,14 +919,14 @@ func c05RunHistory(x *h.Ctx, c c05Case, k *c05Kind) {
 	}
 	describe := func() string {
 		var b strings.Builder
-		fmt.Fprintf(&b, "kind %s, client time claims %q, value must be refused for %v after an acceptance (0 = for ever)\n", c.Kind, c.Claims, window)
+		fmt.Fprintf(&b, "kind %s, client time claims %q, addressed as %q, value must be refused for %v after an acceptance (0 = for ever)\n", c.Kind, c.Claims, c.Aud, window)
 		for i, o := range out {
-			fmt.Fprintf(&b, "  t+%ds request %d: ok=%v %s\n", c.Hist[i], i, o.OK, o.Detail)
+			fmt.Fprintf(&b, "  t+%ds request %d at tenant %s: ok=%v %s\n", c.Hist[i], i, c05Target(c, i), o.OK, o.Detail)
 		}
 		b.WriteString(faultText)
 		return b.String()
 	}
-	if c.Claims == "" && !out[0].OK && len(fx.st.fired) == 0 {
+	if c.Claims == "" && !out[0].OK && len(fx.st.fired) == 0 && c05Target(c, 0) == "A" && (c.Aud == "" || c.Aud == "jwt:A" || c.Aud == "jwt:A,B" || c.Aud == "jwt:B,A" || c.Aud == "jwt:A-string") {
 		x.Fatalf("first presentation of a value with current time claims was refused: fixture problem\n%s", describe())
 	}
 	for i := 0; i < n; i++ {
@@ -830,6 +942,9 @@ func c05RunHistory(x *h.Ctx, c c05Case, k *c05Kind) {
 			when := "immediate"
 			if gap > 0 {
 				when = "delayed"
+			}
+			if c05Target(c, i) != c05Target(c, j) {
+				when += ":cross-tenant"
 			}
 			c05Violate(x, "replay-honoured:"+c.Kind+":"+when+faultSig, "request %d and request %d (%v later) presenting the same %s were both honoured\n%s", i, j, gap, c.Kind, describe())
 			return
@@ -883,6 +998,24 @@ func c05EnumerateHistories(yield func(c05Case) bool) {
 				}
 			}
 		}
+		// tenants: the value is replayed at another subject's endpoint of the same node, in every order, immediately and
+		// delayed; for every addressing variant (also replayed at the same tenant, since those variants are new values)
+		if k.tenants {
+			patterns := [][]string{{"A", "B"}, {"B", "A"}, {"B", "B"}, {"A", "B", "A"}, {"A", "B", "B"}, {"B", "A", "B"}, {"B", "B", "A"}, {"B", "A", "A"}}
+			for _, aud := range append([]string{""}, k.auds...) {
+				pats := patterns
+				if aud != "" {
+					pats = append([][]string{{"A", "A"}, {"A", "A", "A"}}, patterns...)
+				}
+				for _, tg := range pats {
+					for _, hist := range [][]int{{0, 0, 0}, {0, 4, 11}} {
+						if !yield(c05Case{Kind: name, Aud: aud, Targets: tg, Hist: hist[:len(tg)]}) {
+							return
+						}
+					}
+				}
+			}
+		}
 		// back-end faults: immediate and slightly delayed replays, two to four requests
 		for _, plan := range c05FaultPlans() {
 			for _, hist := range [][]int{{0, 0}, {0, 0, 0}, {0, 0, 0, 0}, {0, 2, 4}} {
@@ -929,8 +1062,10 @@ func c05Enumerate(t *testing.T, n int, capPerSpace int) func(yield func(c05Case)
 		for _, name := range c05KindOrder {
 			k := c05Kinds[name]
 			type space struct {
-				roles  []string
-				faults []c05Fault
+				roles   []string
+				faults  []c05Fault
+				targets []string
+				aud     string
 			}
 			var spaces []space
 			for _, roles := range c05RoleSets(k, n) {
@@ -946,11 +1081,19 @@ func c05Enumerate(t *testing.T, n int, capPerSpace int) func(yield func(c05Case)
 					}
 				}
 			}
+			if n == 2 && k.tenants {
+				// the two requests are aimed at different tenants of the node, for every addressing variant
+				for _, aud := range append([]string{""}, k.auds...) {
+					for _, tg := range [][]string{{"A", "B"}, {"B", "A"}} {
+						spaces = append(spaces, space{roles: c05RoleSets(k, n)[0], targets: tg, aud: aud})
+					}
+				}
+			}
 			for _, sp := range spaces {
 				roles := sp.roles
 				stop := false
 				executed, complete := sched.Explore(capPerSpace, func(prefix []int) (sched.Trace, bool) {
-					c := c05Case{Kind: name, Roles: roles, Schedule: append([]int{}, prefix...), Faults: sp.faults}
+					c := c05Case{Kind: name, Roles: roles, Schedule: append([]int{}, prefix...), Faults: sp.faults, Targets: sp.targets, Aud: sp.aud}
 					// a deviation from an enumerated prefix means the run was not deterministic: retry a few times
 					for attempt := 0; ; attempt++ {
 						if !yield(c) {
@@ -973,6 +1116,9 @@ func c05Enumerate(t *testing.T, n int, capPerSpace int) func(yield func(c05Case)
 				space := fmt.Sprintf("%s/n=%d/%s", name, n, strings.Join(roles, ","))
 				for _, f := range sp.faults {
 					space += "/" + f.String()
+				}
+				if len(sp.targets) > 0 {
+					space += "/tenants=" + strings.Join(sp.targets, ",") + "/aud=" + sp.aud
 				}
 				h.Count(c05ID, unit, "schedules["+space+"]", executed)
 				if complete {
